@@ -456,8 +456,10 @@ func checkC12(c C12Case) (vs []*Violation) {
 	mutPanicMu.Unlock()
 	if c.SharedPrefix {
 		labels = append(labels, "changing_services_share_a_mux_pattern")
-		if got := outcome("GET", "/m/v/keep/x", false); len(vs) == 0 && !strings.HasPrefix(got, "status=200 route=\"keep\"") {
-			addV(viol("", "GET /m/v/keep/x on the never-changing service next to the changing ones: %s", got))
+		if len(vs) == 0 { // (a container that is already known to be wedged is not asked again)
+			if got := outcome("GET", "/m/v/keep/x", false); !strings.HasPrefix(got, "status=200 route=\"keep\"") {
+				addV(viol("", "GET /m/v/keep/x on the never-changing service next to the changing ones: %s", got))
+			}
 		}
 	}
 	if len(vs) == 0 {
